@@ -5,6 +5,7 @@ package main
 import (
 	"fmt"
 	"go/token"
+	"go/types"
 	"os"
 	"sort"
 	"strings"
@@ -331,6 +332,7 @@ func c12Handoff(c *Ctx, la *lockAnalysis) {
 // c12Guarded: guarded-by table.
 func c12Guarded(c *Ctx, la *lockAnalysis) {
 	guardedBy2(c, la, "R4-guarded-by", guardedFields, guardExceptions, 40)
+	c12IndexValidity(c, guardedFields)
 }
 
 func guardedBy2(c *Ctx, la *lockAnalysis, rule string, guardedFields map[string]guardSpec, guardExceptions map[string]string, floor int) {
@@ -486,6 +488,147 @@ func unlockedOrigin(la *lockAnalysis, fn *ssa.Function, sat func(lockSet) bool) 
 		}
 	}
 	return fnName(fn)
+}
+
+// c12IndexValidity: an index into a guarded slice is only meaningful while the lock under
+// which it was computed is still held.  For every positional mutation of a guarded slice
+// field (slices.Delete / slices.Insert / slices.Replace / element store) no release of
+// the field's write lock lies on a path between the computation of the index and the
+// mutation (re-locking in between does not help: the slice may have shifted).
+func c12IndexValidity(c *Ctx, guardedFields map[string]guardSpec) {
+	const rule = "R7-index-valid-while-locked"
+	n := 0
+	isGuardedSlice := func(v ssa.Value) (string, bool) {
+		for _, o := range origins(v) {
+			u, ok := o.(*ssa.UnOp)
+			if !ok || u.Op != token.MUL {
+				continue
+			}
+			if fa, ok := u.X.(*ssa.FieldAddr); ok {
+				if _, g := guardedFields[fieldAddrName(fa)]; g {
+					if _, isSlice := fa.Type().Underlying().(*types.Pointer).Elem().Underlying().(*types.Slice); isSlice {
+						return fieldAddrName(fa), true
+					}
+				}
+			}
+		}
+		return "", false
+	}
+	idxOf := func(in ssa.Instruction) (field string, idx ssa.Value, what string) {
+		switch x := in.(type) {
+		case *ssa.Call:
+			nm := calleeName(x)
+			if strings.HasPrefix(nm, "slices.Delete") || strings.HasPrefix(nm, "slices.Insert") || strings.HasPrefix(nm, "slices.Replace") {
+				if len(x.Call.Args) >= 2 {
+					if f, ok := isGuardedSlice(x.Call.Args[0]); ok {
+						return f, x.Call.Args[1], nm
+					}
+				}
+			}
+		case *ssa.Store:
+			if ia, ok := x.Addr.(*ssa.IndexAddr); ok {
+				if f, ok := isGuardedSlice(ia.X); ok {
+					return f, ia.Index, "element store"
+				}
+			}
+		}
+		return "", nil, ""
+	}
+	pathFrom := func(a, b ssa.Instruction, avoid *ssa.BasicBlock) bool {
+		if a.Block() == b.Block() {
+			ia, ib := -1, -1
+			for i, in := range a.Block().Instrs {
+				if in == a {
+					ia = i
+				}
+				if in == b {
+					ib = i
+				}
+			}
+			if ia < ib {
+				return true
+			}
+		}
+		av := map[*ssa.BasicBlock]bool{}
+		if avoid != nil && avoid != a.Block() && avoid != b.Block() {
+			av[avoid] = true
+		}
+		seen := map[*ssa.BasicBlock]bool{}
+		var walk func(bb *ssa.BasicBlock) bool
+		walk = func(bb *ssa.BasicBlock) bool {
+			if bb == b.Block() {
+				return true
+			}
+			if seen[bb] || av[bb] {
+				return false
+			}
+			seen[bb] = true
+			for _, s := range bb.Succs {
+				if walk(s) {
+					return true
+				}
+			}
+			return false
+		}
+		for _, s := range a.Block().Succs {
+			if walk(s) {
+				return true
+			}
+		}
+		return false
+	}
+	for _, fn := range c.P.ProdFuncs() {
+		if deadInProduction(c.P, fn) {
+			continue
+		}
+		for _, b := range fn.Blocks {
+			for _, in := range b.Instrs {
+				field, idx, what := idxOf(in)
+				if idx == nil {
+					continue
+				}
+				var defs []ssa.Instruction
+				for _, o := range origins(idx) {
+					if d, ok := o.(ssa.Instruction); ok && d.Parent() == fn {
+						defs = append(defs, d)
+					}
+				}
+				if len(defs) == 0 {
+					continue // constant index or a parameter: nothing was computed under the lock here
+				}
+				n++
+				spec := guardedFields[field]
+				bad := ""
+				for _, call := range calls(fn) {
+					op, ok := classifyLockCall(call)
+					if !ok || (op.Kind != "unlock" && op.Kind != "release") {
+						continue
+					}
+					isW := false
+					for _, g := range spec.write {
+						if g == op.Class {
+							isW = true
+						}
+					}
+					if !isW {
+						continue
+					}
+					if _, deferred := call.(*ssa.Defer); deferred {
+						continue
+					}
+					for _, d := range defs {
+						if pathFrom(d, call, nil) && pathFrom(call, in, d.Block()) {
+							bad = c.pos(call)
+						}
+					}
+				}
+				c.check(bad == "", rule, fmt.Sprintf("%s: the index used by %s on %s was computed in the same critical section", fnName(fn), what, field), c.pos(in),
+					"no release of "+fmt.Sprint(spec.write)+" between the computation of the index and its use",
+					"the lock is released at "+bad+" between computing the index and using it: a concurrent register/unregister shifts the slice and the stale index removes or overwrites an unrelated element")
+			}
+		}
+	}
+	c.floor(rule, n, 1, "positional mutations of guarded slices")
 }
 
 func c12Close(c *Ctx, la *lockAnalysis) {
